@@ -51,6 +51,8 @@ type CtWorld struct {
 	Owner      *chain.Acct // an EOA that approved every forwarder on the ERC-20 precompile
 	Recv       common.Address
 	Erc20      common.Address
+	Erc20B     common.Address // ERC-20 precompile of the non-EVM denomination (its read-only methods are vector targets)
+	Foreign    bool
 	Staking    common.Address
 	Bech32     common.Address
 	Val        [2]common.Address
@@ -96,6 +98,13 @@ func ListMethods(c *chain.Chain) []Method {
 				m.AbiView = am.StateMutability == "view" || am.StateMutability == "pure"
 			}
 			out = append(out, m)
+			if kind == "erc20" && m.Ro {
+				// the ERC-20 precompile of the second denomination runs the same executors; its read-only methods are
+				// separate vector targets (another address is touched)
+				m2 := m
+				m2.Cpc, m2.Addr = "erc20b", "second ERC-20 precompile"
+				out = append(out, m2)
+			}
 		}
 	}
 	sort.Slice(out, func(i, j int) bool {
@@ -111,11 +120,20 @@ func ListMethods(c *chain.Chain) []Method {
 // staking precompile through the real deployment message (3 decimals, so that the reward threshold of
 // withdrawRewards is 1 unit), 16 funded forwarding contracts at keyed addresses, each with a delegation
 // to validator 0 (native MsgDelegate signed by its key) and an ERC-20 allowance from Owner.
-func NewCtWorld(depth int) *CtWorld { return NewCtWorldWith(depth, Kinds, Forwarder, nil) }
+func NewCtWorld(depth int, foreign bool) *CtWorld {
+	w := newCtWorld(depth, Kinds, Forwarder, nil, foreign)
+	return w
+}
 
 // NewCtWorldWith is NewCtWorld with the forwarding contracts' kinds and code chosen by the caller, plus
 // extra named contracts (funded, delegating and approved like the forwarders).
 func NewCtWorldWith(depth int, kinds []string, code func(kind string) []byte, extra map[string][]byte) *CtWorld {
+	return newCtWorld(depth, kinds, code, extra, false)
+}
+
+// newCtWorld: with foreign = true every precompile address (both ERC-20 precompiles, staking, bech32) receives coins of
+// the non-EVM denomination (native MsgSend) and holds none of the EVM denomination: precondition "foreign" of CallTree.tla.
+func newCtWorld(depth int, kinds []string, code func(kind string) []byte, extra map[string][]byte, foreign bool) *CtWorld {
 	w := &CtWorld{Fwd: make([]map[string]*chain.Acct, depth), Extra: map[string]*chain.Acct{}}
 	o := chain.DefaultOpts()
 	o.NAccts = 4
@@ -180,6 +198,21 @@ func NewCtWorldWith(depth int, kinds []string, code func(kind string) []byte, ex
 			must("delegation of "+f.Name, err == nil && adm && res.Code == 0, res)
 			r := SendEth(c, w.Owner, w.Erc20, Enc("approve(address,uint256)", AddrWord(f.Addr), Word(big.NewInt(1_000_000_000))), 200000)
 			must("approval for "+f.Name, r.Admitted && r.Status == 1, r)
+		}
+	}
+	// second ERC-20 precompile (non-EVM denomination), through the real deployment message
+	res, adm, err = SendCosmos(c, c.Accts[0], 500000, &cpctypes.MsgDeployErc20ContractRequest{
+		Authority: c.Accts[0].Acc().String(), Name: "TokenTwo", Symbol: "TWO", Decimals: 6, MinDenom: chain.Denom2})
+	must("deploy second ERC-20 precompile", err == nil && adm && res.Code == 0, res)
+	b := c.App.CPCKeeper.GetErc20CustomPrecompiledContractAddressByMinDenom(c.Ctx(), chain.Denom2)
+	must("second ERC-20 precompile", b != nil, nil)
+	w.Erc20B = *b
+	w.Foreign = foreign
+	if foreign {
+		for _, t := range []common.Address{w.Erc20, w.Erc20B, w.Staking, w.Bech32} {
+			res, adm, err := SendCosmos(c, c.Accts[1], 300000, banktypes.NewMsgSend(c.Accts[1].Acc(), t.Bytes(), sdk.NewCoins(sdk.NewInt64Coin(chain.Denom2, 50))))
+			must("funding "+t.Hex()+" with the foreign denomination", err == nil && adm && res.Code == 0, res)
+			must("no EVM-denomination coins on "+t.Hex(), c.Bal(t, chain.Denom).Sign() == 0 && c.Bal(t, chain.Denom2).Sign() > 0, nil)
 		}
 	}
 	w.Methods = ListMethods(c)
@@ -320,6 +353,12 @@ func pack(ab abi.ABI, name string, args ...interface{}) []byte {
 func (w *CtWorld) LeafData(m Method, x *chain.Acct) (common.Address, []byte) {
 	w.nonce++
 	X := x.Addr
+	if m.Cpc == "erc20b" {
+		m2 := m
+		m2.Cpc = "erc20"
+		_, data := w.LeafData(m2, x)
+		return w.Erc20B, data
+	}
 	switch m.Cpc {
 	case "erc20":
 		switch m.Name {
@@ -400,6 +439,7 @@ type Vector struct {
 	Method  string   `json:"method"`
 	Ro      bool     `json:"ro"`
 	Allowed bool     `json:"allowed"`
+	Pre     string   `json:"pre"`
 }
 
 // CtGas is the gas limit of every vector transaction.
@@ -440,7 +480,7 @@ func (w *CtWorld) RunVector(v Vector, pre map[string]string) (ev trace.M, post m
 	if r.HasRcpt && r.Status == 1 {
 		st = 1
 	}
-	ev = trace.M{"ev": "Vector", "id": v.ID, "path": v.Path, "cpc": v.Cpc, "method": v.Method, "caller": x.Name,
+	ev = trace.M{"ev": "Vector", "id": v.ID, "pre": v.Pre, "path": v.Path, "cpc": v.Cpc, "method": v.Method, "caller": x.Name,
 		"status": st, "changed": len(d) > 0, "nchanged": len(d), "nlogs": len(r.Logs), "gasUsed": r.GasUsed, "evmGas": r.EvmGas, "vmError": trunc(r.VmError, 80), "sample": append([]string{}, sample...)}
 	return ev, post
 }
@@ -479,11 +519,9 @@ func RunCallTree(out *trace.W, vectorsPath string, only string, shard, shards in
 			depth = len(v.Path)
 		}
 	}
-	w := NewCtWorld(depth)
-	if shard == 0 {
-		out.Emit(trace.M{"ev": "Methods", "methods": w.Methods})
-	}
-	pre := w.Dump()
+	worlds := map[string]*CtWorld{}
+	pres := map[string]map[string]string{}
+	first := true
 	for _, v := range vs {
 		if only != "" && v.Cpc+"."+v.Method != only {
 			continue
@@ -491,12 +529,29 @@ func RunCallTree(out *trace.W, vectorsPath string, only string, shard, shards in
 		if shards > 1 && v.ID%shards != shard {
 			continue
 		}
-		ev, post := w.RunVector(v, pre)
+		w := worlds[v.Pre]
+		if w == nil {
+			switch v.Pre {
+			case "bare":
+				w = NewCtWorld(depth, false)
+			case "foreign":
+				w = NewCtWorld(depth, true)
+			default:
+				panic("unknown precondition " + v.Pre)
+			}
+			worlds[v.Pre] = w
+			pres[v.Pre] = w.Dump()
+			if first && shard == 0 {
+				out.Emit(trace.M{"ev": "Methods", "methods": w.Methods})
+			}
+			first = false
+		}
+		ev, post := w.RunVector(v, pres[v.Pre])
 		out.Emit(ev)
-		pre = post
+		pres[v.Pre] = post
 		if ev["changed"].(bool) {
 			w.Settle()
-			pre = w.Dump()
+			pres[v.Pre] = w.Dump()
 			stats["changed"]++
 		}
 		stats["vectors"]++
